@@ -1,5 +1,11 @@
 package main
 
+// Helpers of the C03 / C17 extractors. Anchors are located by SHAPE, never by the names of locals, receivers or
+// unexported helpers: variable names are derived from the statements themselves (the "executed" flag is whatever the
+// first result of the `<x>.IsProposalExecuted(…)` assignment is called, the status is whatever the first result of the
+// `<x>.PropStatus(…)` assignment is called …), a method whose name is gone is found by receiver + signature, `if` chains
+// and `switch` statements over the same value are translated to the same Lean term.
+
 import (
 	"go/ast"
 	"go/token"
@@ -7,53 +13,401 @@ import (
 	"strings"
 )
 
-// statusNames maps the Go status constants to the numeric codes used in the generated Lean definitions
-// (0 missing, 1 pending, 2 failed, 3 executed).
-func c3StatusNames(v string) map[string]string {
-	return map[string]string{v: "s", "store.MissingProp": "0", "store.PendingProp": "1", "store.FailedProp": "2", "store.ExecutedProp": "3"}
+func itoa(i int) string { return strconv.Itoa(i) }
+
+func leanBool(b bool) string {
+	if b {
+		return "true"
+	}
+	return "false"
 }
 
-// c3LoopOrder classifies the top-level statements of the (first) `for … range` loop of fd whose body calls
-// IsProposalExecuted: "lookup", "err-return", "skip-executed", "append:<target>"; other statements are ignored.
-func c3LoopOrder(fd *ast.FuncDecl) []string {
-	order := []string{}
-	if fd == nil {
-		return order
+func leanBoolList(bs []bool) string {
+	xs := []string{}
+	for _, b := range bs {
+		xs = append(xs, leanBool(b))
 	}
-	done := false
-	Walk(fd.Body, func(n ast.Node) bool {
-		rs, ok := n.(*ast.RangeStmt)
-		if !ok || done {
-			return !done
+	return "[" + strings.Join(xs, ", ") + "]"
+}
+
+// c3StatusCodes: the store's status constants as the numeric codes of the generated Lean definitions
+// (0 missing, 1 pending, 2 failed, 3 executed); with and without the package qualifier.
+var c3StatusCodes = map[string]int{"MissingProp": 0, "PendingProp": 1, "FailedProp": 2, "ExecutedProp": 3}
+
+func c3StatusCode(e ast.Expr) (int, bool) {
+	s := Src(e)
+	if i := strings.LastIndex(s, "."); i >= 0 {
+		s = s[i+1:]
+	}
+	c, ok := c3StatusCodes[s]
+	return c, ok
+}
+
+func c3StatusNames(v string) map[string]string {
+	m := map[string]string{v: "s"}
+	for n, c := range c3StatusCodes {
+		m["store."+n] = itoa(c)
+		m[n] = itoa(c)
+	}
+	return m
+}
+
+// c3Method finds method `name` of receiver type `recv`; if the name is gone, the single method of that receiver for
+// which `shape` holds (so that renaming an unexported helper does not lose the anchor).
+func c3Method(f *ast.File, recv, name string, shape func(*ast.FuncDecl) bool) *ast.FuncDecl {
+	if fd := FindFunc(f, recv, name); fd != nil {
+		return fd
+	}
+	if f == nil || shape == nil {
+		return nil
+	}
+	var found *ast.FuncDecl
+	n := 0
+	for _, d := range f.Decls {
+		fd, ok := d.(*ast.FuncDecl)
+		if !ok || fd.Body == nil {
+			continue
 		}
-		if !strings.Contains(Src(rs.Body), "IsProposalExecuted(") {
-			return true
+		if recv == "" && fd.Recv != nil || recv != "" && (fd.Recv == nil || !strings.HasSuffix(Src(fd.Recv.List[0].Type), recv)) {
+			continue
 		}
-		done = true
-		for _, st := range rs.Body.List {
-			switch s := st.(type) {
-			case *ast.AssignStmt:
-				src := Src(s)
-				if strings.Contains(src, "IsProposalExecuted(") {
-					order = append(order, "lookup")
-				} else if len(s.Rhs) == 1 && strings.HasPrefix(Src(s.Rhs[0]), "append(") && (s.Tok == token.ASSIGN) {
-					order = append(order, "append:"+Src(s.Lhs[0]))
+		if shape(fd) {
+			found = fd
+			n++
+		}
+	}
+	if n == 1 {
+		return found
+	}
+	return nil
+}
+
+func c3RecvName(fd *ast.FuncDecl) string {
+	if fd != nil && fd.Recv != nil && len(fd.Recv.List) == 1 && len(fd.Recv.List[0].Names) == 1 {
+		return fd.Recv.List[0].Names[0].Name
+	}
+	return ""
+}
+
+// c3Calls reports whether the printed node contains a call of a method/function called `name` (`.name(` or `name(`).
+func c3Calls(n ast.Node, name string) bool {
+	found := false
+	Walk(n, func(m ast.Node) bool {
+		if c, ok := m.(*ast.CallExpr); ok {
+			switch fn := c.Fun.(type) {
+			case *ast.SelectorExpr:
+				if fn.Sel.Name == name {
+					found = true
 				}
-			case *ast.IfStmt:
-				cond := Src(s.Cond)
-				body := Src(s.Body)
-				if cond == "err != nil" && strings.Contains(body, "return") {
-					order = append(order, "err-return")
-				} else if cond == "isExecuted" && strings.Contains(body, "continue") {
-					order = append(order, "skip-executed")
-				} else {
-					order = append(order, "if:"+cond)
+			case *ast.Ident:
+				if fn.Name == name {
+					found = true
 				}
 			}
 		}
-		return false
+		return !found
 	})
-	return order
+	return found
+}
+
+func c3ParamTypes(fd *ast.FuncDecl) []string {
+	ts := []string{}
+	if fd == nil || fd.Type.Params == nil {
+		return ts
+	}
+	for _, p := range fd.Type.Params.List {
+		k := len(p.Names)
+		if k == 0 {
+			k = 1
+		}
+		for i := 0; i < k; i++ {
+			ts = append(ts, Src(p.Type))
+		}
+	}
+	return ts
+}
+
+// c3Results: the result types of fd joined by ", " ("" for none)
+func c3Results(fd *ast.FuncDecl) string {
+	ts := []string{}
+	if fd == nil || fd.Type.Results == nil {
+		return ""
+	}
+	for _, p := range fd.Type.Results.List {
+		k := len(p.Names)
+		if k == 0 {
+			k = 1
+		}
+		for i := 0; i < k; i++ {
+			ts = append(ts, Src(p.Type))
+		}
+	}
+	return strings.Join(ts, ", ")
+}
+
+func c3ParamNames(fd *ast.FuncDecl) []string {
+	ns := []string{}
+	if fd == nil || fd.Type.Params == nil {
+		return ns
+	}
+	for _, p := range fd.Type.Params.List {
+		if len(p.Names) == 0 {
+			ns = append(ns, "_")
+		}
+		for _, n := range p.Names {
+			ns = append(ns, n.Name)
+		}
+	}
+	return ns
+}
+
+// loopBody returns the body of a `for … range` or a 3-clause `for`, the ranged expression (range X / i < len(X)) and,
+// for an indexed loop, the element variable bound by a leading `v := X[i]` (otherwise the range value).
+func c3Loop(n ast.Node) (body *ast.BlockStmt, over string, ok bool) {
+	switch l := n.(type) {
+	case *ast.RangeStmt:
+		return l.Body, Src(l.X), true
+	case *ast.ForStmt:
+		if b, isB := l.Cond.(*ast.BinaryExpr); isB && (b.Op == token.LSS || b.Op == token.GTR) {
+			for _, side := range []ast.Expr{b.X, b.Y} {
+				if c, isC := side.(*ast.CallExpr); isC && Src(c.Fun) == "len" && len(c.Args) == 1 {
+					return l.Body, Src(c.Args[0]), true
+				}
+			}
+		}
+		return l.Body, "", true
+	}
+	return nil, "", false
+}
+
+// c3FilterOrder normalises the executed-filter of a collecting loop: the first loop of fd whose body assigns the
+// results of a `.IsProposalExecuted(` call. Result tags, in source order:
+//   lookup, err-return (if <err> != nil { return … }), skip-executed (if <exec> { continue }  — or the guard
+//   `if !<exec> { … append … }`, which is reported as skip-executed followed by append), append (X = append(X, …)).
+// Returns ok=false when the loop is not found or a tag cannot be identified (e.g. the lookup moved into a helper).
+// target = the slice expression the proposals are collected into.
+func c3FilterOrder(f *ast.File, fd *ast.FuncDecl) (order []string, target string, ok bool) {
+	if fd == nil {
+		return nil, "", false
+	}
+	// the lookup itself, or (one level) a same-file helper returning (bool, error) that performs it
+	isLookup := func(a *ast.AssignStmt) bool {
+		if c3Calls(a, "IsProposalExecuted") {
+			return true
+		}
+		if len(a.Rhs) != 1 || f == nil {
+			return false
+		}
+		c, isC := a.Rhs[0].(*ast.CallExpr)
+		if !isC {
+			return false
+		}
+		name := ""
+		switch fn := c.Fun.(type) {
+		case *ast.SelectorExpr:
+			name = fn.Sel.Name
+		case *ast.Ident:
+			name = fn.Name
+		}
+		for _, d := range f.Decls {
+			if h, isF := d.(*ast.FuncDecl); isF && h.Name.Name == name && h.Body != nil && c3Results(h) == "bool, error" && c3Calls(h.Body, "IsProposalExecuted") {
+				return true
+			}
+		}
+		return false
+	}
+	var body *ast.BlockStmt
+	Walk(fd.Body, func(n ast.Node) bool {
+		if body != nil {
+			return false
+		}
+		if b, _, isLoop := c3Loop(n); isLoop && b != nil {
+			for _, st := range b.List {
+				if a, isA := st.(*ast.AssignStmt); isA && isLookup(a) {
+					body = b
+					return false
+				}
+			}
+		}
+		return true
+	})
+	if body == nil {
+		return nil, "", false
+	}
+	execVar, errVar := "", ""
+	appendOf := func(st ast.Stmt) (string, bool) {
+		a, isA := st.(*ast.AssignStmt)
+		if !isA || len(a.Lhs) != 1 || len(a.Rhs) != 1 {
+			return "", false
+		}
+		c, isC := a.Rhs[0].(*ast.CallExpr)
+		if !isC || Src(c.Fun) != "append" || len(c.Args) < 2 || Src(c.Args[0]) != Src(a.Lhs[0]) {
+			return "", false
+		}
+		return Src(a.Lhs[0]), true
+	}
+	isNot := func(e ast.Expr, v string) bool {
+		u, isU := e.(*ast.UnaryExpr)
+		return isU && u.Op == token.NOT && Src(u.X) == v
+	}
+	for _, st := range body.List {
+		switch s := st.(type) {
+		case *ast.AssignStmt:
+			if isLookup(s) && len(s.Lhs) == 2 {
+				execVar, errVar = Src(s.Lhs[0]), Src(s.Lhs[1])
+				order = append(order, "lookup")
+			} else if t, isApp := appendOf(s); isApp && execVar != "" {
+				order = append(order, "append")
+				target = t
+			} else if t, isApp := appendOf(s); isApp {
+				// collected before the lookup
+				order = append(order, "append")
+				target = t
+			}
+		case *ast.IfStmt:
+			if execVar == "" {
+				continue
+			}
+			cond := Src(s.Cond)
+			switch {
+			case (cond == errVar+" != nil" || cond == "nil != "+errVar) && c3HasReturn(s.Body):
+				order = append(order, "err-return")
+			case cond == execVar && c3HasBranch(s.Body, token.CONTINUE) && s.Else == nil:
+				order = append(order, "skip-executed")
+			case cond == execVar && c3HasBranch(s.Body, token.CONTINUE) && s.Else != nil:
+				// if exec { continue } else { … append … }
+				order = append(order, "skip-executed")
+				if eb, isB := s.Else.(*ast.BlockStmt); isB {
+					for _, st2 := range eb.List {
+						if t, isApp := appendOf(st2); isApp {
+							order = append(order, "append")
+							target = t
+						}
+					}
+				}
+			case isNot(s.Cond, execVar):
+				for _, st2 := range s.Body.List {
+					if t, isApp := appendOf(st2); isApp {
+						order = append(order, "skip-executed", "append")
+						target = t
+					}
+				}
+			}
+		}
+	}
+	has := map[string]bool{}
+	for _, t := range order {
+		has[t] = true
+	}
+	if !(has["lookup"] && has["err-return"] && has["skip-executed"] && has["append"]) {
+		return order, target, false
+	}
+	return order, target, true
+}
+
+func c3HasReturn(b *ast.BlockStmt) bool {
+	for _, st := range b.List {
+		if _, ok := st.(*ast.ReturnStmt); ok {
+			return true
+		}
+	}
+	return false
+}
+
+func c3HasBranch(b *ast.BlockStmt, tok token.Token) bool {
+	for _, st := range b.List {
+		if br, ok := st.(*ast.BranchStmt); ok && br.Tok == tok {
+			return true
+		}
+	}
+	return false
+}
+
+// c3ReturnsBoolFirst: the block's (last) return statement returns the literal `want` as its first value.
+func c3ReturnsBoolFirst(stmts []ast.Stmt, want string) bool {
+	for _, st := range stmts {
+		if r, ok := st.(*ast.ReturnStmt); ok && len(r.Results) >= 1 && Src(r.Results[0]) == want {
+			return true
+		}
+	}
+	return false
+}
+
+// c3StatusDecision translates "for which status does the function do <pick>?" into a Lean Bool over the status code
+// `s`, from an `if` chain or a `switch` over the status variable (the first result of the `.PropStatus(` call).
+// pick(stmts) says whether a branch body is the one asked for. Handles `if c { pick }`, `switch v { case A, B: pick }`
+// and a `default:` that picks (the negation of all other cases). ok=false if nothing was found.
+func c3StatusDecision(fd *ast.FuncDecl, pick func([]ast.Stmt) bool) (string, bool) {
+	if fd == nil {
+		return "false", false
+	}
+	statusVar := ""
+	Walk(fd.Body, func(n ast.Node) bool {
+		if a, ok := n.(*ast.AssignStmt); ok && statusVar == "" && c3Calls(a, "PropStatus") && len(a.Lhs) >= 1 {
+			statusVar = Src(a.Lhs[0])
+		}
+		return true
+	})
+	if statusVar == "" {
+		return "false", false
+	}
+	names := c3StatusNames(statusVar)
+	terms := []string{}
+	ok := true
+	found := false
+	Walk(fd.Body, func(n ast.Node) bool {
+		switch s := n.(type) {
+		case *ast.IfStmt:
+			if strings.Contains(Src(s.Cond), statusVar) && pick(s.Body.List) {
+				t, tok := LeanExpr(s.Cond, names)
+				terms = append(terms, t)
+				ok = ok && tok
+				found = true
+			}
+		case *ast.SwitchStmt:
+			if s.Tag == nil || Src(s.Tag) != statusVar {
+				return true
+			}
+			others := []string{}
+			for _, c := range s.Body.List {
+				cc := c.(*ast.CaseClause)
+				eqs := []string{}
+				for _, e := range cc.List {
+					code, cok := c3StatusCode(e)
+					ok = ok && cok
+					eqs = append(eqs, "decide (s = "+itoa(code)+")")
+				}
+				if cc.List == nil { // default
+					if pick(cc.Body) {
+						found = true
+						terms = append(terms, "DEFAULT")
+					}
+					continue
+				}
+				if pick(cc.Body) {
+					found = true
+					terms = append(terms, eqs...)
+				} else {
+					others = append(others, eqs...)
+				}
+			}
+			for i, t := range terms {
+				if t == "DEFAULT" {
+					if len(others) == 0 {
+						terms[i] = "true"
+					} else {
+						terms[i] = "(!(" + strings.Join(others, " || ") + "))"
+					}
+				}
+			}
+			return false
+		}
+		return true
+	})
+	if !found || !ok {
+		return "false", false
+	}
+	return "(" + strings.Join(terms, " || ") + ")", true
 }
 
 // c3LockTrace walks the body of fd in source order, tracking `<mutex>.Lock()` / `<mutex>.Unlock()` statements
@@ -61,9 +415,27 @@ func c3LoopOrder(fd *ast.FuncDecl) []string {
 // return; for every return statement whether the mutex is held there when deferred calls are ignored; whether it
 // is held when control falls off the end. Branch bodies start from the state before the branch and do not
 // change the state after it (a branch that unlocks and returns is therefore seen correctly).
-func c3LockTrace(fd *ast.FuncDecl, mutex string) (deferred bool, returnsHeld []bool, endHeld bool, locks int) {
+//
+// helpers: one level of same-file helper calls is followed — `<recv>.<h>()` counts as Lock / Unlock when method h of the
+// same receiver type consists of exactly that one statement on the same mutex field (see c3LockHelpers).
+func c3LockTrace(fd *ast.FuncDecl, mutex string, helpers map[string]string) (deferred bool, returnsHeld []bool, endHeld bool, locks int) {
 	if fd == nil {
 		return false, nil, true, 0
+	}
+	recv := c3RecvName(fd)
+	kind := func(call string) string {
+		switch call {
+		case mutex + ".Lock()":
+			return "lock"
+		case mutex + ".Unlock()":
+			return "unlock"
+		}
+		for h, k := range helpers {
+			if call == recv+"."+h+"()" {
+				return k
+			}
+		}
+		return ""
 	}
 	sawReturn := false
 	var block func(list []ast.Stmt, held bool) bool
@@ -71,15 +443,15 @@ func c3LockTrace(fd *ast.FuncDecl, mutex string) (deferred bool, returnsHeld []b
 		for _, st := range list {
 			switch s := st.(type) {
 			case *ast.ExprStmt:
-				switch Src(s.X) {
-				case mutex + ".Lock()":
+				switch kind(Src(s.X)) {
+				case "lock":
 					held = true
 					locks++
-				case mutex + ".Unlock()":
+				case "unlock":
 					held = false
 				}
 			case *ast.DeferStmt:
-				if Src(s.Call) == mutex+".Unlock()" && held && !sawReturn {
+				if kind(Src(s.Call)) == "unlock" && held && !sawReturn {
 					deferred = true
 				}
 			case *ast.ReturnStmt:
@@ -114,42 +486,54 @@ func c3LockTrace(fd *ast.FuncDecl, mutex string) (deferred bool, returnsHeld []b
 	return
 }
 
-func leanBoolList(bs []bool) string {
-	xs := []string{}
-	for _, b := range bs {
-		if b {
-			xs = append(xs, "true")
-		} else {
-			xs = append(xs, "false")
+// c3LockHelpers: methods of receiver type `typ` whose body is exactly `<r>.<field>.Lock()` or `<r>.<field>.Unlock()`.
+func c3LockHelpers(f *ast.File, typ, field string) map[string]string {
+	out := map[string]string{}
+	if f == nil {
+		return out
+	}
+	for _, d := range f.Decls {
+		fd, ok := d.(*ast.FuncDecl)
+		if !ok || fd.Recv == nil || fd.Body == nil || len(fd.Body.List) != 1 || !strings.HasSuffix(Src(fd.Recv.List[0].Type), typ) {
+			continue
+		}
+		if es, ok := fd.Body.List[0].(*ast.ExprStmt); ok {
+			switch Src(es.X) {
+			case c3RecvName(fd) + "." + field + ".Lock()":
+				out[fd.Name.Name] = "lock"
+			case c3RecvName(fd) + "." + field + ".Unlock()":
+				out[fd.Name.Name] = "unlock"
+			}
 		}
 	}
-	return "[" + strings.Join(xs, ", ") + "]"
-}
-
-func leanBool(b bool) string {
-	if b {
-		return "true"
-	}
-	return "false"
-}
-
-// c3IfWithBody finds the first `if` in fd whose body (printed) contains `needle`; returns its condition.
-func c3IfWithBody(fd *ast.FuncDecl, needle string) ast.Expr {
-	var out ast.Expr
-	if fd == nil {
-		return nil
-	}
-	Walk(fd.Body, func(n ast.Node) bool {
-		if out != nil {
-			return false
-		}
-		if s, ok := n.(*ast.IfStmt); ok && strings.Contains(Src(s.Body), needle) {
-			out = s.Cond
-			return false
-		}
-		return true
-	})
 	return out
 }
 
-func itoa(i int) string { return strconv.Itoa(i) }
+// c3MutexField: the name of the (single) field of struct `typ` in f whose type is sync.Mutex.
+func c3MutexField(f *ast.File, typ string) string {
+	name, n := "", 0
+	if f == nil {
+		return ""
+	}
+	Walk(f, func(nd ast.Node) bool {
+		ts, ok := nd.(*ast.TypeSpec)
+		if !ok || ts.Name.Name != typ {
+			return true
+		}
+		if st, ok := ts.Type.(*ast.StructType); ok {
+			for _, fl := range st.Fields.List {
+				if Src(fl.Type) == "sync.Mutex" {
+					for _, nm := range fl.Names {
+						name = nm.Name
+						n++
+					}
+				}
+			}
+		}
+		return false
+	})
+	if n == 1 {
+		return name
+	}
+	return ""
+}
